@@ -2,7 +2,7 @@
 import numpy as np
 from hypothesis import strategies as st
 
-from vf import core, rng
+from vf import core, gen, rng
 from vf.core import Violation, Reject, lib, require
 from vf.props import c09_stack as S
 
@@ -33,10 +33,21 @@ def sets_case(gen_name):
     @st.composite
     def strat(draw):
         min_r, min_p = MIN_GROUPS.get(gen_name, (1, 1))
-        if draw(st.integers(0, 7)) == 0:
+        if draw(st.integers(0, 3 if gen_name in ('loo_rdm', 'k_fold_rdm', 'of_k_rdm') else 9)) == 0:
             # many RDMs (e.g. 20 subjects x 2 sessions) over few conditions: 'all numbers of RDMs'
             spec = draw(S.stack(n_rdm=(20, 44), n_cond=(3, 4), min_rdm_groups=min_r,
                                 min_pat_groups=min_p, allow_nan=False))
+            if draw(st.booleans()):
+                # the typical layout: many subjects with two or three sessions each
+                r = spec['n_rdm']
+                per = draw(st.sampled_from([2, 2, 3]))
+                kind = draw(st.sampled_from(['str', 'str', 'int']))
+                base = [i // per for i in range(r)]
+                order = draw(gen.permutation(r))
+                vals = [base[i] for i in order]
+                spec['rdm'] = dict(by='grp', kind=kind, container=draw(gen.container),
+                                   values=[('sub-%02d' % v) if kind == 'str' else 1000 * v + 7
+                                           for v in vals])
         else:
             spec = draw(S.stack(n_rdm=(max(1, min_r), 8), n_cond=(3, 10), min_rdm_groups=min_r,
                                 min_pat_groups=min_p, allow_nan=False))
